@@ -4,6 +4,7 @@ import (
 	"context"
 	"errors"
 	"fmt"
+	"slices"
 	"sort"
 	"strconv"
 	"strings"
@@ -533,6 +534,8 @@ func (c *compiler) compileBind(l, r *Query, patterns []*Pattern) error {
 	}
 	var pc int
 	var vs [][2]int
+	vss := make([][][2]int, len(patterns))
+	pcs := make([]int, len(patterns))
 	for i, p := range patterns {
 		var pcc int
 		var err error
@@ -550,14 +553,30 @@ func (c *compiler) compileBind(l, r *Query, patterns []*Pattern) error {
 		if vs, err = c.compilePattern(vs[:0], p); err != nil {
 			return err
 		}
+		vss[i] = append([][2]int(nil), vs...)
 		if i < len(patterns)-1 {
 			defer c.lazy(func() *code {
-				return &code{op: opjump, v: pc}
+				return &code{op: opjump, v: pcs[i]}
 			})()
 			pcc = len(c.codes)
 		}
 	}
 	if len(patterns) > 1 {
+		// the variables only of the patterns after the matched one are null
+		for i := range len(patterns) - 1 {
+			defer c.lazy(func() *code {
+				return &code{op: opjump, v: pc}
+			})()
+			pcs[i] = len(c.codes)
+			for _, vs := range vss[i+1:] {
+				for _, v := range vs {
+					if !slices.Contains(vss[i], v) {
+						c.append(&code{op: oppush, v: nil})
+						c.append(&code{op: opstore, v: v})
+					}
+				}
+			}
+		}
 		pc = len(c.codes)
 	}
 	if len(patterns) == 1 && c.codes[len(c.codes)-2].op == opexpbegin {
